@@ -74,6 +74,8 @@ def run_bane(ctx, path, step, box, cores, nslice, mask=True, plan=None, save=Non
         for line in r.stdout.splitlines():
             if line.startswith('RESULT '):
                 res = json.loads(line[7:])
+        if res is not None and r.returncode in (137, -9, 124):
+            res['exit_hang'] = True        # the call returned / raised, but the process never exited (killed by the watchdog)
     if res is None:
         # hung or killed: clean up children and shared memory so that later runs are not disturbed
         subprocess.run(['pkill', '-KILL', '-f', 'bane_runner.py'], capture_output=True)
@@ -238,6 +240,10 @@ def run(ctx, model_ok=True):
                          is_violation={'kind': 'hang', **d, 'rows': rows, 'cols': cols, 'step': step, 'box': box,
                                        'what': f'filter_image did not return within {WATCHDOG}s'})
             continue
+        if res.get('exit_hang'):
+            ctx.mismatch('the calling process does not exit after the call', d, impl=f'killed by the watchdog after {WATCHDOG}s although filter_image had returned / raised',
+                         is_violation={'kind': 'exit_hang', **d, 'rows': rows, 'cols': cols, 'step': step, 'box': box,
+                                       'what': 'filter_image returned or raised, but the process then hangs at interpreter exit (workers left behind)'})
         if res['shm_left']:
             ctx.mismatch('shared memory left behind', d, impl=res['shm_left'],
                          is_violation={'kind': 'shm', **d, 'rows': rows, 'cols': cols, 'step': step, 'box': box,
